@@ -360,14 +360,9 @@ def rule_d(repo, chk):
 
 
 def _handler_loop(d):
-    """The for-loop of the dispatcher in which the loop variable is called."""
-    g = d.cfg()
-    for n in g.nodes:
-        if n.kind == 'for' and isinstance(n.ast.target, ast.Name):
-            v = n.ast.target.id
-            if any(call_name(c) == v for c in calls_in(n.ast)):
-                return n
-    raise AnalysisError('C02: no handler loop (`for h in handlers: … h(…)`) in Manager._dispatcher')
+    """The for-loop of the dispatcher in which the handlers are run."""
+    from .common import dispatcher_loop
+    return dispatcher_loop(d.module.repo, d)[0]
 
 
 def rule_e(repo, chk):
@@ -376,7 +371,8 @@ def rule_e(repo, chk):
     loop = _handler_loop(d)
     hv = loop.ast.target.id
     ev = d.params[1]
-    inv = [n for n in g.nodes if n.kind in ('stmt', 'test') and any(call_name(c) == hv for c in pat.node_calls(n))]
+    from .common import dispatcher_loop
+    inv = dispatcher_loop(repo, d)[2]
     need(inv, 'C02.e: no handler invocation found')
     tests = [n for n in g.nodes if n.kind == 'test' and src(n.ast) == f'{ev}.stopped']
     for n in inv:
